@@ -76,7 +76,7 @@ for _r, _tr in (("io::IOReader", "Read"), ("eio::EIOReader", "Read")):
 
 
 # ---- the COBS accumulator (C08, C09).  One outcome per case of the property's case analysis; POS = index of the first zero byte.
-POS = "position(&{iter(arg2)}, closure<- => *arg2 in [0,0]>())"
+POS = "position(&{Iter{pos: 0, slice: arg2}}, closure<- => *arg2 in [0,0]>())"
 N_FIT = "const<N> - len(arg2) - self.idx"
 Z_FIT = "const<N> - self.idx - someval(%s)" % POS
 TAKE = "arg2[0..(someval(%s) + 1)]" % POS
